@@ -155,8 +155,11 @@ func c13Result(b []byte) string {
 func (in *c13Inst) apply(cmds []c13Cmd) (res []string, errClass string) {
 	batch := make([]multiraft.Command, len(cmds))
 	for i, c := range cmds {
+		data := make([]byte, len(c.data))
+		copy(data, c.data)
+		// cap == len: a decoder that slices past the end of the payload panics instead of reading slack bytes
 		batch[i] = multiraft.Command{SlotID: multiraft.SlotID(c.slot), HashSlot: c.hashSlot, Index: c.index, Term: 1,
-			Data: append([]byte(nil), c.data...)}
+			Data: data[:len(data):len(data)]}
 	}
 	out, err := in.sm.ApplyBatch(context.Background(), batch)
 	if err != nil {
@@ -176,6 +179,7 @@ func (r *c13Runner) run(plan []string) string {
 	in := c13Open(c13NewDir())
 	defer func() { in.close(true) }()
 	var out []string
+	out = append(out, "I"+in.state())
 	pos := 0
 	singles := func(cmds []c13Cmd) {
 		for _, c := range cmds {
@@ -567,10 +571,14 @@ var c13Makers = []c13Maker{
 		return fsm.EncodeGarbageCollectTerminalChannelMigrationTasksCommand(c13Rand[metadb.ChannelMigrationTaskGCRequest](g))
 	}},
 	{"enterFence", func(g *Gen) []byte {
-		if g.R.Bool() {
-			return fsm.EncodeEnterFenceCommand(uint16(g.R.Range(1, 3)))
+		hs := uint16(g.R.Range(1, 3))
+		if g.R.Chance(80) {
+			c13WantHS = hs // envelope and payload agree
 		}
-		return fsm.EncodeEnterFenceCommandForTarget(uint16(g.R.Range(1, 3)), multiraft.SlotID(g.R.Range(0, 7)))
+		if hs == 2 && g.R.Bool() {
+			return fsm.EncodeEnterFenceCommand(hs) // slot 2 has a configured outgoing target
+		}
+		return fsm.EncodeEnterFenceCommandForTarget(hs, multiraft.SlotID(g.R.Pick(1, 6)*7))
 	}},
 	{"ackOutbox", func(g *Gen) []byte {
 		return fsm.EncodeAckHashSlotMigrationOutboxCommand(uint16(g.R.Range(1, 3)), multiraft.SlotID(g.R.Range(1, 2)), multiraft.SlotID(g.R.Pick(1, 1, 4)*3+1), uint64(g.R.Range(0, 30)))
@@ -580,9 +588,25 @@ var c13Makers = []c13Maker{
 	}},
 }
 
+// c13WantHS: set by a maker that needs a particular envelope hash slot (0 = any)
+var c13WantHS uint16
+
+// c13Clean: in a clean log the command families whose random instances are mostly
+// refused (they need a long consistent migration history) are drawn less often, so
+// that multi-command batches without any refusal are common.
+var c13Clean bool
+
 func c13MakeCmd(g *Gen) (string, []byte) {
 	for {
 		m := c13Makers[g.R.Intn(len(c13Makers))]
+		often := strings.HasPrefix(m.name, "mig") && m.name != "migCreateTask" && m.name != "migGC" ||
+			strings.HasPrefix(m.name, "appendMessage") || m.name == "ackOutbox" || m.name == "cleanupOutbox"
+		if c13Clean && often && !g.R.Chance(15) {
+			continue
+		}
+		if m.name != "enterFence" && m.name != "noop" && g.R.Chance(4) {
+			m = c13Makers[len(c13Makers)-3] // enterFence, drawn more often: later commands of the hash slot get fenced
+		}
 		if b := m.make(g); len(b) > 0 {
 			return m.name, b
 		}
@@ -593,15 +617,29 @@ func genC13(g *Gen) {
 	for c := 0; c < g.N; c++ {
 		g.Case()
 		n := g.R.Range(12, 40)
+		c13Clean = g.R.Chance(60)
+		if c13Clean {
+			g.Count("log:clean")
+		} else {
+			g.Count("log:with-malformed-and-unowned")
+		}
 		var prev [][]byte
 		for i := 1; i <= n; i++ {
 			slot := uint64(c13Slot)
 			hs := uint16(g.R.Range(1, 3))
 			var name string
 			var data []byte
-			switch g.R.Pick(70, 8, 12, 10) {
+			c13WantHS = 0
+			malW := 10
+			if c13Clean {
+				malW = 0
+			}
+			switch g.R.Pick(70, 8, 12, malW) {
 			case 0:
 				name, data = c13MakeCmd(g)
+				if c13WantHS != 0 {
+					hs = c13WantHS
+				}
 			case 1: // a delta forwarded from another slot, wrapping an ordinary command
 				var inner []byte
 				name, inner = c13MakeCmd(g)
@@ -622,7 +660,11 @@ func genC13(g *Gen) {
 				data = append([]byte(nil), base...)
 				switch g.R.Intn(8) {
 				case 0:
-					name, data = "mal:truncated", data[:g.R.Intn(len(data))]
+					cut := g.R.Intn(len(data))
+					if g.R.Bool() && len(data) > 2 {
+						cut = len(data) - g.R.Range(1, 2) // one or two bytes short: the off-by-one zone of every length check
+					}
+					name, data = "mal:truncated", data[:cut]
 				case 1:
 					name = "mal:bitflip"
 					data[g.R.Intn(len(data))] ^= byte(1 << uint(g.R.Intn(8)))
@@ -642,7 +684,11 @@ func genC13(g *Gen) {
 					data[0] = byte(g.R.Range(0, 3) * 2)
 				}
 			}
-			switch g.R.Pick(90, 5, 3, 2) {
+			envW := 1
+			if c13Clean {
+				envW = 0
+			}
+			switch g.R.Pick(90, 5*envW, 3*envW, 2*envW) {
 			case 1:
 				hs = 4
 				g.Count("envelope:unowned-hash-slot")
